@@ -139,11 +139,7 @@ def run(ctx):
         ctx.counts["decode-reachable-fns"] = len(reach)
         # positive control: the same query matches the compressor's source.read
         cb = crate.mir.get("ruzstd::encoding::frame_compressor::FrameCompressor::compress")
-        hit = False
-        for b in (cb or {"blocks": []})["blocks"]:
-            t = b["term"]
-            if t["k"] == "Call" and H.strip_generics(M.call_decl(t) or "").endswith("::Read::read"):
-                hit = True
+        hit = bool(cb) and bool(flow.call_blocks_through_new(crate, M.Body(cb), lambda decl: decl.endswith("::Read::read")))
         ctx.check(hit, R, "positive-control", "", "the query must match the compressor's Read::read call (else it is blind)")
         ctx.check(len(reach) >= 90, R, "reachable-set-size", "", "decode-reachable function set is implausibly small", observed=len(reach))
     ctx.guard(R, "exact", exact)
